@@ -11,7 +11,7 @@ import (
 
 func c16Gen(g *G) {
 	r := g.R
-	hostile := []string{"p", "k", "u", "x", "t", "e", "b", "q12345", "q0", "n77", "B0"}
+	hostile := []string{"p", "k", "u", "x", "t", "e", "b", "q12345", "q0", "n77", "B0", "zt", "zc", "N2(x)", "N5(u)", "N6(p)", "N3(q12345)"}
 	g.Emit("c16.run o g0;w1;b;q12345;x;t;e;u;a0", "each-kind")
 	g.Emit("c16.run o,o g0;w1;close;g1;w2;a1;a0", "close-then-probe")
 	// notifications naming a message the client wrote that is not a request (its own msgs_ack): a real
@@ -20,6 +20,12 @@ func c16Gen(g *G) {
 	g.Emit("c16.run o,o g0;w1;u;W;Bk0;a0;j;g1;w2;a1", "notification-names-an-ack")
 	g.Emit("c16.run o,o u;W;c(rk0/2000,Bk0);x;W;rk1/2001;g1;w1;a1", "notification-names-an-ack")
 	g.Emit("c16.run o,o h;u;W;=;^x;=;g1;w1;a1", "late-and-repeated")
+	// compressed messages whose framing is fine and whose stream is damaged; containers inside containers, deep,
+	// repeatedly, with the answer itself nested
+	g.Emit("c16.run o,o g0;w1;zt;zc;c(zt,p);a0;j;g1;w2;a1", "damaged-gzip")
+	g.Emit("c16.run o,o N5(u);N6(x);N7(p);N5(n88);g1;w1;c(p,a1)", "nested-containers")
+	g.Emit("c16.run o,o N6(u);g1;w1;N4(a1)", "nested-containers")
+	g.Emit("c16.run o,o,o g0+1+2;w3;N9(a0);N2(c(a1,u));N5(a2)", "nested-containers")
 	n := g.N(60, 1500)
 	for i := 0; i < n; i++ {
 		var plan []string
@@ -71,7 +77,14 @@ func c16Gen(g *G) {
 		if r.Intn(4) == 0 {
 			plan = append(plan, hostile[r.Intn(5)])
 		}
-		plan = append(plan, "a1")
+		switch r.Intn(5) {
+		case 0:
+			plan = append(plan, fmt.Sprintf("N%d(a1)", 1+r.Intn(6)))
+		case 1:
+			plan = append(plan, "c(p,a1)")
+		default:
+			plan = append(plan, "a1")
+		}
 		g.Emit("c16.run o,o "+strings.Join(plan, ";"), "hostile-then-probe")
 	}
 	// bad_msg_notification for a pending request: its caller gets the error, a later probe completes
